@@ -136,43 +136,58 @@ func execOwn(args []string) string {
 	switch args[0] {
 	case "write-apis": // own write-apis <sender s|c> <pd>: caller payloads are neither modified nor read after the call
 		sh, ch := newRecorder(), newRecorder()
-		s, c, _, _, err := handshakePair(&gws.ServerOption{PermessageDeflate: ownPD(pd)}, &gws.ClientOption{PermessageDeflate: ownPD(pd)}, sh, ch)
+		s, c, sraw, craw, err := handshakePair(&gws.ServerOption{PermessageDeflate: ownPD(pd)}, &gws.ClientOption{PermessageDeflate: ownPD(pd)}, sh, ch)
 		if err != nil {
 			return "handshake-failed"
 		}
 		go s.ReadLoop()
 		go c.ReadLoop()
-		sender, recvH := s, ch
+		sender, recvH, senderRaw := s, ch, sraw
 		if args[1] == "c" {
-			sender, recvH = c, sh
+			sender, recvH, senderRaw = c, sh, craw
 		}
+		// while a write call is in flight (observed at every transport write it causes) the caller's payload
+		// must read as the caller left it: another goroutine may be sending the same slice elsewhere
+		var watched, watchedCopy []byte
+		var watchedAPI int
+		senderRaw.SetOnWrite(func([]byte) {
+			if watched != nil && !bytes.Equal(watched, watchedCopy) {
+				mon.add("payload-modified-in-flight-api%d", watchedAPI)
+			}
+		})
 		var want []string
 		scribble := func(p []byte) {
 			for i := range p {
 				p[i] = 0xEE
 			}
 		}
-		sizes := []int{0, 1, 125, 126, 700, 70000}
+		sizes := []int{0, 1, 125, 126, 700, 70000, 4096, 32768, 65536, 40000, 1 << 20, 33000}
 		for i, n := range sizes {
 			p := r.Text(n)
 			q := append([]byte(nil), p...)
 			var err error
 			api := i % 5
+			op := gws.OpcodeText
+			if i >= 6 && api != 3 {
+				op = gws.OpcodeBinary
+			}
 			done := make(chan error, 1)
+			watched, watchedCopy, watchedAPI = p, q, api
 			switch api {
 			case 0:
-				err = sender.WriteMessage(gws.OpcodeText, p)
+				err = sender.WriteMessage(op, p)
 			case 1:
-				err = sender.Writev(gws.OpcodeText, p[:n/2], p[n/2:])
+				err = sender.Writev(op, p[:n/2], p[n/2:])
 			case 2:
-				sender.WriteAsync(gws.OpcodeText, p, func(e error) { done <- e })
+				sender.WriteAsync(op, p, func(e error) { done <- e })
 				err = <-done
 			case 3:
 				err = sender.WriteString(string(p))
 			case 4:
-				sender.WritevAsync(gws.OpcodeText, [][]byte{p[:n/3], p[n/3:]}, func(e error) { done <- e })
+				sender.WritevAsync(op, [][]byte{p[:n/3], p[n/3:]}, func(e error) { done <- e })
 				err = <-done
 			}
+			watched = nil
 			if err != nil {
 				mon.add("write-error-api%d", api)
 			}
@@ -180,7 +195,7 @@ func execOwn(args []string) string {
 				mon.add("payload-modified-api%d", api)
 			}
 			scribble(p) // the call (or its callback) is over: the library must not look at p any more
-			want = append(want, "msg:1:"+hx(q))
+			want = append(want, fmt.Sprintf("msg:%d:%s", op, hx(q)))
 		}
 		// ping with payload
 		pp := r.Bytes(50)
